@@ -236,6 +236,11 @@ def gate(ctx):
             cases.append((f'connected chain {k} (numbering restarts: {len({a["resid"] for a in g["atoms"]}) < n})', g, False, None))
         else:
             cut = rng.choice(inter)
+            # where the numbering restarts: the bond that joins the two chains of a merged molecule
+            resid_of_res = {a['res']: a['resid'] for a in g['atoms']}
+            joins = [b for b in inter if resid_of_res[max(resof[b[0]], resof[b[1]])] == 1]
+            if joins and rng.random() < 0.7:
+                cut = joins[0]
             cases.append((f'chain {k} without the bond {cut} (numbering restarts: {len({a["resid"] for a in g["atoms"]}) < n})',
                           dict(g, bonds=[b for b in g['bonds'] if b != cut]), True, None))
     for kind, m, must_refuse, fid in cases:
